@@ -471,7 +471,7 @@ class C05(Base):
                   "STORE+FLUSH publishes a new segment (index read-modify-write race).")
     clauses = {"lost", "duplicate-row", "foreign-row", "wrong-value", "count-vs-selection", "replay-lost", "replay-duplicate",
                "replay-foreign", "layout-variance", "frames", "read-error", "panic", "id-change", "restart-panic"}
-    budgets = {"quick": {"histories": 12, "crash_limit": 40}, "thorough": {"histories": 110, "crash_limit": 100000}}
+    budgets = {"quick": {"histories": 12, "crash_limit": 40}, "thorough": {"histories": 80, "crash_limit": 100000}}
 
     @staticmethod
     def gen(seed, tier):
